@@ -86,7 +86,10 @@ def gen_table(r, fmt, nrows):
 
 
 COMMENTS = ["# timestamp tx ty tz qx qy qz qw", "#", "#1 2 3 4 5 6 7 8", "# \"quoted\", commas, and spaces  ",
-            "#timestamp [ns],p_RS_R_x [m],p_RS_R_y [m]", "# ünïcödé 位置 \U0001F600", "##", "# 1,2,3,4,5,6,7,8"]
+            "#timestamp [ns],p_RS_R_x [m],p_RS_R_y [m]", "# ünïcödé 位置 \U0001F600", "##", "# 1,2,3,4,5,6,7,8",
+            # a comment is skipped as a *line*, whatever it contains: field-initial unclosed quotes (either delimiter) must not
+            # start a multi-line quoted field that swallows the following data rows
+            "# relocalised near \"door 3", "# note,\"unclosed", "# \"", "#,\"", "# a \"b\" c \"d", "# x ,\"y \"z", "# it's 'single"]
 
 
 def assemble(r, fmt, rows, comments=True, eol=None, final_nl=None, extra_lines=()):
